@@ -281,7 +281,10 @@ def run(model, col, tier):
         tg_ = unparse(lp_.target)
         calls_ = [c for s_ in lp_.body for c in ast.walk(s_) if isinstance(c, ast.Call)]
         upd_i = next((i for i, c in enumerate(calls_) if last_attr(c) == "UpdateUses" and unparse(c.func.value) == tg_), None)
-        mrg_i = next((i for i, c in enumerate(calls_) if last_attr(c) in ("update",) and c.args and unparse(c.args[0]).startswith(tg_ + ".")), None)
+        from ..sem import local_env as _le23, rtext as _rt23
+
+        fu_env = _le23(fu, allow_impure=True)
+        mrg_i = next((i for i, c in enumerate(calls_) if last_attr(c) in ("update",) and c.args and _rt23(c.args[0], fu_env).startswith(tg_ + ".")), None)
         if "BasicBlocks" in unparse(lp_.iter) or "basicBlocks" in unparse(lp_.iter):
             rebuilt = upd_i is not None and mrg_i is not None and not any(isinstance(x, (ast.If, ast.Continue, ast.Break)) for s_ in lp_.body for x in ast.walk(s_))
     fresh_tbl = any(isinstance(n, ast.Assign) and isinstance(n.targets[0], ast.Attribute) and "uses" in n.targets[0].attr.lower() for n in fu.body)
@@ -364,6 +367,22 @@ def run(model, col, tier):
         lp_ = next((n for n in ast.walk(comp) if isinstance(n, ast.For) and any(x is skip[0] for x in ast.walk(n))), None)
         names_ = [x.id for x in ast.walk(lp_.target) if isinstance(x, ast.Name)] if lp_ is not None else []
         good = lp_ is not None and "irPasses" in unparse(lp_.iter) and any(tt == f"not {sw} and {nm}.Flags & PassFlags.IsOptimization" for sw in switch_forms for nm in names_)
+        if not good and lp_ is not None and "irPasses" in unparse(lp_.iter):
+            # the same decision spelled over several tests: a pass is skipped on exactly the paths where the switch is off and
+            # the pass carries the optimisation flag
+            sw_keys = set(switch_forms)
+            fl_keys = {f"{nm}.Flags & PassFlags.IsOptimization" for nm in names_}
+            verdicts = []
+            for evs, status in paths(lp_.body):
+                a = cond_atoms(evs, c_env)
+                first_exit = next((e.kind for e in evs if e.kind in ("continue", "break", "return")), status)
+                sw = next((v for k, v in a.items() if k in sw_keys), None)
+                fl = next((v for k, v in a.items() if k in fl_keys), None)
+                # atoms of the path up to the skip decision only: stop looking after the first RunPass call
+                skipped = first_exit == "continue" and not any(last_attr(c) in ("__RunPass", "Process") for c in calls_on_path(evs))
+                verdicts.append((skipped, sw, fl))
+            good = bool(verdicts) and any(s for s, _, _ in verdicts) and all((sw is False and fl is True) if s else (sw is True or fl is False) for s, sw, fl in verdicts)
+            tt = f"{tt} (paths: {sorted(set(verdicts), key=str)})"
     col.check(good, "R02.4", f"{COMPILER}::Compile skips exactly the optimisation passes when optimisation is off", "if not <options.get('optimize', False)> and <pass>.Flags & IsOptimization: continue",
               f"skip condition is `{tt}`", COMPILER, comp)
     mp = model.func("nsl/Pass.py", "MakePassFromVisitor")
@@ -638,7 +657,10 @@ def check_value_table(model, col, rule):
         if not (isinstance(outer.iter, ast.Attribute) and "instructions" in outer.iter.attr):
             continue
         for inner in [l for b_ in outer.body for l in ast.walk(b_) if isinstance(l, ast.For) and isinstance(l.target, ast.Name)]:
-            if not any(isinstance(a, ast.Attribute) and a.attr == "Uses" and isinstance(a.value, ast.Name) and a.value.id == outer.target.id for a in ast.walk(inner.iter)):
+            from ..sem import local_env as _le211, resolve as _rs211
+
+            it_ = _rs211(inner.iter, _le211(uu, allow_impure=True))
+            if not any(isinstance(a, ast.Attribute) and a.attr == "Uses" and isinstance(a.value, ast.Name) and a.value.id == outer.target.id for a in ast.walk(it_)):
                 continue
             for st in inner.body:
                 c = st.value if isinstance(st, ast.Expr) else None
